@@ -16,8 +16,32 @@ def ne_other(s_):
 
 
 def size_terms(p):
-    """comparison atoms of the path between the record size argument and computed sizes: [(op, size term, truth)]"""
+    """comparison facts of the path between the record size argument and computed sizes: [(size term, equal?)] — read out of
+    ==, != and their combinations with &, |, ! in any arrangement"""
     out = []
+    either = []           # disjunctions: one of [(size term, equal?), ...] holds
+
+    def atom(t):
+        if t[0] == 'bin' and t[1] in ('Eq', 'Ne') and ('param', 2) in (t[2], t[3]):
+            return (t[3] if t[2] == ('param', 2) else t[2]), t[1] == 'Eq'
+        return None
+
+    def facts(t, truth):
+        """-> list of alternatives, each a list of (size term, equal?)"""
+        a = atom(t)
+        if a is not None:
+            return [[(a[0], a[1] == truth)]]
+        if t[0] == 'un' and t[1] == 'Not':
+            return facts(t[2], not truth)
+        if t[0] == 'bin' and t[1] in ('BitAnd', 'BitOr'):
+            l, r = facts(t[2], truth), facts(t[3], truth)
+            conj = (t[1] == 'BitAnd') == truth        # (a & b) true, (a | b) false: both sides hold
+            if l is None or r is None:
+                return (l or r) if conj else None
+            if conj:
+                return [x + y for x in l for y in r]
+            return l + r
+        return None
     for t, v in p.cons:
         if t == ('param', 2):
             if isinstance(v, int):
@@ -26,33 +50,24 @@ def size_terms(p):
                 for x in v[1]:
                     out.append((('int', x), False))
             continue
-        if t[0] == 'bin' and t[1] in ('Eq', 'Ne') and (t[2] == ('param', 2) or t[3] == ('param', 2)):
-            other = t[3] if t[2] == ('param', 2) else t[2]
-            truth = (v != 0) if isinstance(v, int) else True
-            equal = truth if t[1] == 'Eq' else (not truth)
-            out.append((other, equal))
-        elif t[0] == 'bin' and t[1] in ('BitAnd', 'BitOr'):
-            # (a != x) & (a != y) evaluated without short circuit
-            truth = (v != 0) if isinstance(v, int) else True
-            subs = [t[2], t[3]]
-            if t[1] == 'BitAnd' and truth:
-                for s_ in subs:
-                    if ne_other(s_) is not None:
-                        out.append((ne_other(s_), False))
-            elif t[1] == 'BitAnd' and not truth:
-                out.append(('either', subs))
-    # (a != x) & (a != y) is false: a equals x or y; with one of them excluded elsewhere on the path the other holds
-    known = {x: eq for x, eq in out if x != 'either'}
-    for x, subs in list(out):
-        if x != 'either':
+        truth = (v != 0) if isinstance(v, int) else True
+        alts = facts(t, truth)
+        if not alts:
             continue
-        cands = [ne_other(s_) for s_ in subs if ne_other(s_) is not None]
-        if len(cands) == 2:
-            a, b = cands
-            if known.get(a) is False and b not in known:
-                out.append((b, True))
-            elif known.get(b) is False and a not in known:
-                out.append((a, True))
+        if len(alts) == 1:
+            out.extend(alts[0])
+        else:
+            either.append(alts)
+    known = dict(out)
+    for alts in either:
+        live = [a for a in alts if not any(known.get(x) is not None and known.get(x) != eq for x, eq in a)]
+        if len(live) == 1:
+            for x, eq in live[0]:
+                if x not in known:
+                    out.append((x, eq))
+                    known[x] = eq
+        else:
+            out.append(('either', alts))
     return out
 
 
